@@ -10,10 +10,17 @@
   APPLIED: `clear`, `popitem`, `sort`, `reverse` report what they removed / moved, `del l[-1]` reports
   the position.
 
-  Simplifications (stated in the evidence): the three memoised facts (`_sym_missing_values`,
-  `_sym_nondefault_values`, `_sym_puresymbolic`) are reset together by the code and are read
-  together by the harness protocol, so the model keeps one cache per node; its content is the
-  flattened `sym_nondefault()` of a schema-less container (every leaf with its relative path).
+  Derived state: `sym_nondefault()` and `sym_missing()` are model functions of the contents and of
+  the VALUE SPECS (class schemas of objects, schemas that Dicts are bound to: fields with defaults,
+  container defaults, required fields), see `deriveS` / `missS`; each node has the two memos
+  `_sym_nondefault_values` / `_sym_missing_values`, filled by reads exactly where the code fills them
+  (`readND`: a schema-bound node diffs against its defaults without asking its children; `readMiss`
+  and schema-less containers recurse) and reset together by every write along the chain to the root.
+  Simplifications (stated in the evidence): the memo of a schema-bound node may hold references to
+  live child containers that are flattened at read time; the model stores the flattened snapshot
+  (every write below resets the memo, so the two cannot be told apart on this tree); the third memo
+  `_sym_puresymbolic` is not modelled (oracle only); writes whose value the spec would transform
+  (conversion, defaults filled into a new typed Dict, rejected types) are not generated (C03).
   Believed parent = real parent (C01's invariant; only fresh plain values are inserted).
 -/
 import PgModel.Guard
@@ -21,16 +28,32 @@ namespace Pg.C09
 open Pg.C08 (Atom Key)
 
 abbrev Path := List Key
-abbrev LeafMap := List (Path × Atom)
 
 inductive Kind where
   | dict | list | obj
   deriving DecidableEq, Repr
 
+/-- Plain contents (no identities, no memos, no schemas): the defaults of a value spec, and the
+values that `sym_nondefault()` reports. `cls` = the class of an object (0 for Dict / List). -/
+inductive Val where
+  | atom (a : Atom)
+  | node (k : Kind) (cls : Nat) (items : List (Key × Val))
+  deriving Repr
+
+/-- `sym_nondefault()`, flattened: (relative path, value). -/
+abbrev LeafMap := List (Path × Val)
+
+/-- The schema of a `pg.Object` class or of a schema-bound `pg.Dict`: the fields with their
+defaults (`none` = required field without a default). -/
+abbrev Schema := List (Key × Option Val)
+
 structure Meta where
   id : Nat                      -- object identity (for reporting receivers)
   sub : Bool                    -- subscribes: onchange_callback given / `_on_change` overridden
-  cache : Option LeafMap        -- memoised derived state (none = not computed)
+  cache : Option LeafMap        -- `_sym_nondefault_values` (none = not computed)
+  miss : Option (List Path) := none   -- `_sym_missing_values` (none = not computed)
+  cls : Nat := 0                -- class of an object
+  sch : Option Schema := none   -- value spec: the class schema of an object / the schema a Dict is bound to
   deriving Repr
 
 inductive T where
@@ -89,7 +112,7 @@ open T
 
 def resetCache : T → T
   | .leaf a => .leaf a
-  | .node m k items => .node { m with cache := none } k items
+  | .node m k items => .node { m with cache := none, miss := none } k items
 
 /-- Reset the cache of every node on the way from the root to the node at `p` (inclusive): the
 nodes `_notify_field_updates` visits for an update whose target is at `p`. -/
@@ -440,6 +463,10 @@ def applyEdit (root : T) (recv : Path) (notify : Bool) (f : List T → Option Ed
         (e.ents.map fun x => ({ path := recv ++ [Key.i x.1], old := x.2.1, new := x.2.2 }, recv)) notify
   | _ => { tree := root, ok := false, events := [] }
 
+def setItems (items' : List (Key × T)) : T → T
+  | .leaf a => .leaf a
+  | .node m k _ => .node m k items'
+
 /-- `Dict.clear()` / `Dict.popitem()` (fix C09-F55): the removed keys are reported (value -> MISSING). -/
 def applyKeyEdit (root : T) (recv : Path) (notify : Bool)
     (f : List (Key × T) → Option (List (Key × T) × List (Key × Option T × Option T))) : Out :=
@@ -448,9 +475,7 @@ def applyKeyEdit (root : T) (recv : Path) (notify : Bool)
     match f items with
     | none => { tree := root, ok := false, events := [] }
     | some (items', ents) =>
-      finish (resetChain (mapAt (fun t => match t with
-          | .leaf a => .leaf a
-          | .node m k _ => .node m k items') root recv) recv)
+      finish (resetChain (mapAt (setItems items') root recv) recv)
         (ents.map fun x => ({ path := recv ++ [x.1], old := x.2.1, new := x.2.2 }, recv)) notify
   | _ => { tree := root, ok := false, events := [] }
 
@@ -518,57 +543,209 @@ def step (root : T) (recv : Path) (notifyOn : Bool) : Op → Out
   | .delSlice a b st => applyEdit root recv notifyOn (editDelSlice a b st)
   | .imul k => applyEdit root recv notifyOn (editIMul k)
 
-/-! ### derived state: reads -/
+/-! ### derived state: `sym_nondefault()` / `sym_missing()` against the value specs
+
+What a node reports depends on its contents and on the value specs only, never on identities or
+memos: the functions below are defined on `S`, the tree with everything else erased. -/
+
+/-- Contents with classes and schemas, without identities and memos. -/
+inductive S where
+  | leaf (a : Atom)
+  | node (k : Kind) (cls : Nat) (sch : Option Schema) (items : List (Key × S))
+  deriving Repr
+
+mutual
+  def T.sv : T → S
+    | .leaf a => .leaf a
+    | .node m kd items => .node kd m.cls m.sch (T.svItems items)
+  def T.svItems : List (Key × T) → List (Key × S)
+    | [] => []
+    | (k, t) :: rest => (k, T.sv t) :: T.svItems rest
+end
+
+mutual
+  def S.val : S → Val
+    | .leaf a => .atom a
+    | .node kd cls _ items => .node kd cls (S.valItems items)
+  def S.valItems : List (Key × S) → List (Key × Val)
+    | [] => []
+    | (k, t) :: rest => (k, S.val t) :: S.valItems rest
+end
+
+mutual
+  /-- `pg.eq` of a value and a default (structural; objects: same class). -/
+  def Val.beq : Val → Val → Bool
+    | .atom a, .atom b => a == b
+    | .node k c xs, .node k' c' ys => k == k' && c == c' && Val.beqItems xs ys
+    | _, _ => false
+  def Val.beqItems : List (Key × Val) → List (Key × Val) → Bool
+    | [], [] => true
+    | (k, v) :: xs, (k', v') :: ys => k == k' && Val.beq v v' && Val.beqItems xs ys
+    | _, _ => false
+end
+
+def Val.lookup (k : Key) : List (Key × Val) → Option Val
+  | [] => none
+  | (k', v) :: rest => if k' = k then some v else Val.lookup k rest
+
+def schemaDefault (sch : Schema) (k : Key) : Option Val :=
+  match sch.find? (fun e => e.1 == k) with
+  | some e => e.2
+  | none => none
 
 def prefixKey (k : Key) (m : LeafMap) : LeafMap := m.map fun (p, a) => (k :: p, a)
 
 mutual
-  /-- Recomputation on the current contents, ignoring every cache (`sym_nondefault()` of a
-  schema-less container: every leaf, with its relative path). -/
-  def derive : T → LeafMap
-    | .leaf _ => []
-    | .node _ _ items => deriveItems items
-  def deriveItems : List (Key × T) → LeafMap
+  /-- `utils.flatten` of a live value that `_diff_base` returned as a whole: Dicts and Lists are
+  walked, objects and empty containers are leaves. -/
+  def liveFlat (here : Path) : S → LeafMap
+    | .leaf a => [(here, .atom a)]
+    | .node kd cls sch items =>
+      if kd == .obj || items.isEmpty then [(here, (S.node kd cls sch items).val)] else liveItems here items
+  def liveItems (here : Path) : List (Key × S) → LeafMap
     | [] => []
-    | (k, .leaf a) :: rest => ([k], a) :: deriveItems rest
-    | (k, .node m kd its) :: rest => prefixKey k (derive (.node m kd its)) ++ deriveItems rest
+    | (k, t) :: rest => liveFlat (here ++ [k]) t ++ liveItems here rest
 end
 
 mutual
-  /-- What the accessor returns now (cache hit, or recomputation that consults the children's
-  caches), for every node; all caches are filled afterwards. Returns the new tree, the value read
-  at the node itself and the (path, value) list of all nodes below and at it (`here` = path of the
-  node). -/
-  def readAll (here : Path) : T → T × LeafMap × List (Path × LeafMap)
-    | .leaf a => (.leaf a, [], [])
-    | .node m kd items =>
-      let r := readItems here items
-      let own := match m.cache with
-        | some d => d
-        | none => r.2.1
-      (.node { m with cache := some own } kd r.1, own, r.2.2 ++ [(here, own)])
-  /-- Children: new items, the recomputed value of the parent, the reads below. -/
-  def readItems (here : Path) : List (Key × T) → List (Key × T) × LeafMap × List (Path × LeafMap)
-    | [] => ([], [], [])
-    | (k, .leaf a) :: rest =>
-      let r := readItems here rest
-      ((k, .leaf a) :: r.1, ([k], a) :: r.2.1, r.2.2)
-    | (k, .node m kd its) :: rest =>
-      let c := readAll (here ++ [k]) (.node m kd its)
-      let r := readItems here rest
-      ((k, c.1) :: r.1, prefixKey k c.2.1 ++ r.2.1, c.2.2 ++ r.2.2)
+  /-- `Dict._diff_base(value, default)`, flattened below `here`: nothing when the value equals the
+  default; the value itself when it is a leaf, a list, has no default, or is of another class than
+  the default; the field-wise diff when both are Dicts / objects of the same class. -/
+  def diffFlat (here : Path) : S → Option Val → LeafMap
+    | .leaf a, d =>
+      if (match d with | some dv => Val.beq (.atom a) dv | none => false) then [] else [(here, .atom a)]
+    | .node kd cls sch items, d =>
+      if (match d with | some dv => Val.beq (S.node kd cls sch items).val dv | none => false) then []
+      else match d with
+        | some (.node kd' cls' ditems) =>
+          if kd != .list && kd == kd' && cls == cls' then
+            let r := diffItems here items ditems
+            if r.isEmpty then [(here, .node .dict 0 [])] else r
+          else liveFlat here (.node kd cls sch items)
+        | _ => liveFlat here (.node kd cls sch items)
+  def diffItems (here : Path) : List (Key × S) → List (Key × Val) → LeafMap
+    | [], _ => []
+    | (k, t) :: rest, ds => diffFlat (here ++ [k]) t (Val.lookup k ds) ++ diffItems here rest ds
 end
 
-/-- A read of the derived facts of the node at `p` only (the harness chooses which nodes it reads
-and when): the accessor answers from the node's memo or recomputes from its children's answers,
-memoising the whole subtree below `p` on the way (`sym_nondefault` of a schema-less container
-recurses into its symbolic children); nothing outside the subtree is touched. Returns the new tree
-and the value read at `p`. -/
-def readAt (root : T) (p : Path) : T × Option LeafMap :=
+/-- A schema-bound node: every field against its default (a field that holds MISSING_VALUE equals
+its "default" MISSING_VALUE); the children are not asked for their own facts. -/
+def typedItems (sch : Schema) : List (Key × S) → LeafMap
+  | [] => []
+  | (k, .leaf .missing) :: rest => typedItems sch rest
+  | (k, t) :: rest => diffFlat [k] t (schemaDefault sch k) ++ typedItems sch rest
+
+mutual
+  /-- `sym_nondefault()` recomputed on the current contents, ignoring every memo. -/
+  def deriveS : S → LeafMap
+    | .leaf _ => []
+    | .node _ _ (some sch) items => typedItems sch items
+    | .node _ _ none items => deriveItemsS items
+  /-- A schema-less container: every leaf; every symbolic child's own `sym_nondefault()`. -/
+  def deriveItemsS : List (Key × S) → LeafMap
+    | [] => []
+    | (k, .leaf a) :: rest => ([k], .atom a) :: deriveItemsS rest
+    | (k, .node kd cls sch its) :: rest => prefixKey k (deriveS (.node kd cls sch its)) ++ deriveItemsS rest
+end
+
+mutual
+  /-- `sym_missing()`: the fields that hold MISSING_VALUE, at any depth. -/
+  def missS : S → List Path
+    | .leaf _ => []
+    | .node _ _ _ items => missItemsS items
+  def missItemsS : List (Key × S) → List Path
+    | [] => []
+    | (k, .leaf a) :: rest => (if a = .missing then [[k]] else []) ++ missItemsS rest
+    | (k, .node kd cls sch its) :: rest => (missS (.node kd cls sch its)).map (k :: ·) ++ missItemsS rest
+end
+
+def derive (t : T) : LeafMap := deriveS t.sv
+def deriveMiss (t : T) : List Path := missS t.sv
+
+/-! ### reads: what is memoised where -/
+
+mutual
+  /-- `node.sym_nondefault()`: the memo if there is one; otherwise a schema-bound node (object,
+  typed Dict) diffs its contents against the defaults *without asking its children* and memoises
+  the result at itself only, while a schema-less container asks every symbolic child (which
+  memoises in turn). -/
+  def readND : T → T × LeafMap
+    | .leaf a => (.leaf a, [])
+    | .node m kd items =>
+      match m.cache with
+      | some d => (.node m kd items, d)
+      | none =>
+        match m.sch with
+        | some sch =>
+          let d := typedItems sch (T.svItems items)
+          (.node { m with cache := some d } kd items, d)
+        | none =>
+          let r := readNDItems items
+          (.node { m with cache := some r.2 } kd r.1, r.2)
+  def readNDItems : List (Key × T) → List (Key × T) × LeafMap
+    | [] => ([], [])
+    | (k, .leaf a) :: rest =>
+      let r := readNDItems rest
+      ((k, .leaf a) :: r.1, ([k], .atom a) :: r.2)
+    | (k, .node m kd its) :: rest =>
+      let c := readND (.node m kd its)
+      let r := readNDItems rest
+      ((k, c.1) :: r.1, prefixKey k c.2 ++ r.2)
+end
+
+mutual
+  /-- `node.sym_missing()`: the memo, or the recursion through all symbolic children (schema-bound
+  or not), each memoising its own answer. -/
+  def readMiss : T → T × List Path
+    | .leaf a => (.leaf a, [])
+    | .node m kd items =>
+      match m.miss with
+      | some d => (.node m kd items, d)
+      | none =>
+        let r := readMissItems items
+        (.node { m with miss := some r.2 } kd r.1, r.2)
+  def readMissItems : List (Key × T) → List (Key × T) × List Path
+    | [] => ([], [])
+    | (k, .leaf a) :: rest =>
+      let r := readMissItems rest
+      ((k, .leaf a) :: r.1, (if a = .missing then [[k]] else []) ++ r.2)
+    | (k, .node m kd its) :: rest =>
+      let c := readMiss (.node m kd its)
+      let r := readMissItems rest
+      ((k, c.1) :: r.1, c.2.map (k :: ·) ++ r.2)
+end
+
+/-- Which facts a read asks for. -/
+structure Facts where
+  nd : Bool
+  miss : Bool
+
+/-- A read of derived facts of the node at `p` only (the harness chooses which nodes it reads,
+which facts, and when); nothing outside the subtree at `p` is touched. Returns the new tree and
+the values read. -/
+def readAt (root : T) (p : Path) (f : Facts := ⟨true, true⟩) : T × Option (LeafMap × List Path) :=
   match getAt root p with
   | none => (root, none)
   | some n =>
-    let r := readAll p n
-    (mapAt (fun _ => r.1) root p, some r.2.1)
+    let r1 := if f.nd then readND n else (n, [])
+    let r2 := if f.miss then readMiss r1.1 else (r1.1, [])
+    (mapAt (fun _ => r2.1) root p, some (r1.2, r2.2))
+
+mutual
+  /-- The paths of all symbolic nodes, pre-order (the order in which the harness reads everything). -/
+  def allPaths (here : Path) : T → List Path
+    | .leaf _ => []
+    | .node _ _ items => here :: allPathsItems here items
+  def allPathsItems (here : Path) : List (Key × T) → List Path
+    | [] => []
+    | (k, t) :: rest => allPaths (here ++ [k]) t ++ allPathsItems here rest
+end
+
+/-- Reading every fact of every node (the protocol of the streams without chosen reads). -/
+def readEverything (root : T) : T × List (Path × LeafMap × List Path) :=
+  (allPaths [] root).foldl (fun acc p =>
+    match readAt acc.1 p with
+    | (t', some v) => (t', acc.2 ++ [(p, v.1, v.2)])
+    | (t', none) => (t', acc.2)) (root, [])
 
 end Pg.C09
